@@ -20,7 +20,12 @@ func main() {
 	input := flag.String("input", "", "replay: run only the input lines of this file")
 	list := flag.Bool("list", false, "list families")
 	dumpDict := flag.String("dump-brotli-dict", "", "write the static dictionary of /repo/brotli to this file and exit")
+	probe := flag.String("probe", "", "run a one-off probe (cap: more than 2^24 commands in a single-type meta-block) and exit")
 	flag.Parse()
+	if *probe == "cap" {
+		probeCap()
+		return
+	}
 	if *dumpDict != "" {
 		if err := os.WriteFile(*dumpDict, brotli.VerifStaticDict(), 0o644); err != nil {
 			fmt.Fprintln(os.Stderr, err)
